@@ -133,14 +133,16 @@ def project(name, q, words):
             a[1] = (IOC_DIRS[a[1] % 5] | (a[1] & 0x1fffffff)) & 0xffffffff
             if (a[1] & 0xe0000000) not in IOC_DIRS:     # len bit 28 may have produced IOC_DIRMASK-like patterns
                 a[1] &= 0xefffffff
-        if name in REAL_FAULT:
-            a[1] = (a[1] & ~0xff) | (1 + a[1] % 11)
         if name in ('BSC_setsockopt', 'BSC_getsockopt'):
             if a[1] % 2:
                 so = sorted(darwin.SO)
                 a[1], a[2] = darwin.SOL_SOCKET, so[a[2] % len(so)]
             elif a[1] == darwin.SOL_SOCKET:
                 a[1] = 6
+    if name in REAL_FAULT:
+        # the packed word of a real-fault record is the record's own (these records carry no START/END meaning): its
+        # fault type is in range whatever qualifier bits the record has
+        a[1] = (a[1] & ~0xff) | (1 + a[1] % 11)
     if is_end:
         for k, vals in END.get(name, {}).items():
             a[k] = vals[a[k] % len(vals)]
